@@ -310,6 +310,8 @@ def run_check(cid, tier, seed, replay=None, keep=False):
                 rep = json.load(f)
             variants = [rep.get("variant", "plain")]
             nshards = 1
+            seed = rep.get("seed", seed)
+            tier = rep.get("tier", tier)
         stages = {}
         for v in variants:
             try:
